@@ -8,7 +8,18 @@ props = [json.loads(l) for l in open(os.path.join(V, "properties.jsonl"))]
 TRUST = "Trusted: rustc type checking/trait resolution/MIR construction (nightly, opt-level 0) as dumped by factgen; the std/hashlink/encoding_rs semantics named in the evidence file's trusted_base."
 
 CLAIMS = {
- "C02": dict(cat="proof", tech="disjunctive path/outcome extraction over the MIR of every state-machine handler (E5), role typing against a reviewed table, dispatch extraction, who-may-write inventories, def-use of anchor ids",
+ "C04": dict(cat="proof", tech="switch-table extraction from MIR, expression-shape check of the hex accumulator, constant folding of as_hex/is_hex, comparison with the specification's table",
+   text="Proof of one clause only: the double-quoted escape table is the YAML 1.2 table (17 named escapes incl. TAB, \\x/\\u/\\U with 2/4/8 digits, nothing else accepted, any other character after a backslash reaches Err), the hex value is accumulated as (value << 4) + as_hex(c) with as_hex/is_hex the hexadecimal digit value/predicate (folded from their bodies over the alphabet) and passes through char::from_u32. Line folding, blank trimming, '' un-doubling, plain-scalar termination and the character-class facts about what is pushed into scalar text are NOT decided by this check (value-level string behaviour / class domain not built).",
+   design="DESIGN.md §4 C04", note="tables/yaml12_escapes.json transcribes YAML 1.2.2 section 5.7; char::from_u32 semantics. " + TRUST),
+ "C08": dict(cat="proof", tech="def-use (text identity), string-match table extraction, dominance of permissive std parsers by crate-local lexical predicates, comparison with the core-schema literal table",
+   text="Proof of the structural clauses: every Scalar::String holds the untouched input and non-plain styles return it before any parser runs; under tag:yaml.org,2002: the bool/int/float/null arms build only that type (or None) and everything else String; ScalarOwned delegates; every literal the resolver compares against is a core-schema literal with the specified meaning and the JSON literals are present; every permissive std parser (from_str_radix / parse::<i64> after a stripped prefix, parse::<f64>) is reached only on the true edge of a crate-local lexical predicate applied to the same text. What those predicates accept, numeric value equality and 64-bit boundaries are not decided.",
+   design="DESIGN.md §4 C08", note="std parser languages as documented; tables/core_schema_literals.json transcribes YAML 1.2.2 section 10.3.2. " + TRUST),
+ "C09": dict(cat="other", tech="sibling-table agreement: escape_str's byte switch vs the scanner's escape table, need_quotes' extracted tests (folded closures, literal list, prefixes, parsers) vs the resolver's literals/prefixes/parsers, callee rule on the float arm",
+   text="Three necessary conditions of the round trip, decided for the whole tables: every escape escape_str writes decodes (scanner table) to the byte it stands for and the bytes special inside double quotes are escaped; every literal, prefix path and std parser by which the resolver types a plain scalar has a counterpart that makes need_quotes true; the FloatingPoint arm writes .nan/.inf/-.inf and Debug formatting, never Display alone. Round-trip equality itself, layout (compact), complex keys and the multiline_strings path (known to be lossy for some strings, see DESIGN §6) are not decided.",
+   design="DESIGN.md §4 C09", note="Same std parsers on both sides; <f64 as Debug> prints '.' or exponent. " + TRUST),
+ "C12": dict(cat="proof", tech="caller/writer inventories, disjunctive forward data-flow of consumed-but-unaccounted terms per function, shape and dominance rules on MIR (one premise-checked relational lemma)",
+   text="Proof of the lock-step coupling clauses: exactly the 13 scanner functions that consume input advance mark.index, nobody else touches index/col/line (fetch_stream_end's forced newline reviewed); on every path of each, what is consumed (1, k, or the value a bulk operation returns) is added once to index and once to col (raw-read loop by premise-checked lemma); skip_nl is consume-one/index+1/line+1/col=0 and only the two break helpers call it; index only grows; of the two cursor reads of every Span::new the start is read first; ScanError prints col+1; the loader gives every node the span of its event and with_span stores it. Not decided: that a token's start/end marks are the right ones, that breaks are only consumed through the break helpers (class domain), count units of StrInput's bulk operations.",
+   design="DESIGN.md §4 C12", note="Bulk Input operations return character counts (Input contract). " + TRUST), "C02": dict(cat="proof", tech="disjunctive path/outcome extraction over the MIR of every state-machine handler (E5), role typing against a reviewed table, dispatch extraction, who-may-write inventories, def-use of anchor ids",
    text="Proof, for arbitrary token sequences, that every non-error outcome of every handler instance (24 instances, ~200 outcomes: token-kind constraint, push/pop sequence, state written, event or tail call) fits the role of the state it serves; with the one-paragraph-per-role induction this gives the event grammar of the property and shows pop_state never meets an empty stack. Also: every State is dispatched, State::End is answered before dispatch, no unreachable!() is reachable with a satisfiable token constraint, the stack has single writers, anchor ids start at 1, increase by one per anchor, are registered pre-increment only in register_anchor, alias ids come out of the anchor table. Not decided: that the scanner's tokens make the right sentence for a text (C03).",
    design="DESIGN.md §4 C02", note="Paper step roles => grammar (docstring of rules/C02.py); borrow discipline makes the fetched token the peeked one. " + TRUST),
  "C06": dict(cat="proof", tech="dropped-Result def-use rule, dominance + must-reach-Err for enumerated guards, E5 acceptance sets compared with a confirmed table",
